@@ -522,7 +522,7 @@ def _unit_scale_job() -> Record:
     return run_config(qual, {}, build, post)
 
 
-register(Job("c17:unit_scale", ["C17"], US + "unit_scale", {}, _unit_scale_job))
+register(Job("c17:unit_scale", ["C17", "C16"], US + "unit_scale", {}, _unit_scale_job, shared=True))
 
 
 def _to_user_modules_job() -> Record:
@@ -603,6 +603,14 @@ def _init_job(which: str) -> Callable[[], Record]:
             root = mk(Mod, a=lin, b=mk(Mod, inner=lin_nb, e=emb), c=other)
             outsider = prm("not_in_module")
             snap = {id(t): str(t.val) for t in (lin.attrs["weight"], lin.attrs["bias"], lin_nb.attrs["weight"], emb.attrs["weight"], other.attrs["weight"], other.attrs["bias"], outsider)}
+            # what the property prescribes, computed by the same op models on the ORIGINAL values:  w / w.std()
+            from pyvc import torchmodel as tm_
+
+            want: Dict[int, Any] = {}
+            for t in (lin.attrs["weight"], lin_nb.attrs["weight"], emb.attrs["weight"]):
+                t0 = SymTensor(t.shape, t.dtype, t.val, None)
+                want[id(t)] = tm_.tensor_binop(it, "/", t0, tm_._TENSOR_METHODS["std"](it, [t0], {})).val
+            snap["want"] = want  # type: ignore[assignment]
             return it, lambda: (it.call(lookup_fn(it, qual), [root], {}), lin, lin_nb, emb, other, outsider, snap)
 
         def post(p: PathResult, i: int) -> Any:
@@ -618,9 +626,8 @@ def _init_job(which: str) -> Callable[[], Record]:
             if which == "_zero_init_biases":
                 ctx.oblige(f"{tag}:bias_becomes_zero", len(lin.attrs["bias"].val.terms) == 0, val=str(lin.attrs["bias"].val))
             else:
-                w = lin.attrs["weight"]
-                ok = len(w.val.terms) == 1 and "op!div" in str(w.val.terms[0][0]) and "op!std" in str(w.val.terms[0][0])
-                ctx.oblige(f"{tag}:weight_becomes_weight_over_its_std", ok, val=str(w.val)[:160])
+                for nm, w in (("Linear", lin.attrs["weight"]), ("Linear_without_bias", lin_nb.attrs["weight"]), ("Embedding", emb.attrs["weight"])):
+                    ctx.oblige(f"{tag}:weight_becomes_weight_over_its_std(default std: unit variance)[{nm}]", lc_equal_goal(ctx, w.val, snap["want"][id(w)]), val=str(w.val)[:160], want=str(snap["want"][id(w)])[:160])
             return None
 
         return run_config(qual, {}, build, post)
@@ -629,4 +636,4 @@ def _init_job(which: str) -> Callable[[], Record]:
 
 
 for _w in ("_unit_init_weights", "_zero_init_biases"):
-    register(Job(f"c17:{_w}", ["C17"], US + _w, {}, _init_job(_w)))
+    register(Job(f"c17:{_w}", ["C17", "C16"], US + _w, {}, _init_job(_w), shared=True))
